@@ -33,11 +33,11 @@ End R.
 
 (* ---- C17: semantically transparent wrappers, nested to ANY depth ---- *)
 Section Wrap.
-Variable g : list (list nat * expr).
+Variable g funs : list (list nat * expr).
 Variable ignored : option nat.
 Variable t : list nat.
 Variable rx : nat -> nat -> option nat.
-Notation PEG := (peg g ignored t rx).
+Notation PEG := (peg g funs ignored t rx).
 
 Inductive wrapper := WSeq | WOpt | WChoiceFail (dead : expr) | WFailOr.
 Definition wrap1 (w : wrapper) (e : expr) : expr :=
